@@ -248,7 +248,7 @@ Proof.
   unfold rom_covariate_cov.
   set (v := agg_ratio_var a (cfg_numer_covariate cfg) (cfg_denom_covariate cfg)) in *.
   set (c := agg_ratio_cov a (Some (cfg_numer cfg)) (cfg_denom cfg) (cfg_numer_covariate cfg) (cfg_denom_covariate cfg)) in *.
-  destruct (neqb v (nlit 0)); [exact I|].
+  match goal with |- context [neqb ?x ?y] => destruct (neqb x y) end; [exact I|].
   (* the division c / v: c is a Float (its formula contains mean(numer) / mean(denom)), so utils.div applies *)
   apply W_NR, WFl_W, WFl_div_l; [apply WFl_W; exact Hc | exact Hv].
 Qed.
